@@ -24,7 +24,8 @@
    readnets <k> (ident name npins p..)*k            -> none | <m> (name ident cable)*m      whole cell
    emitnets <m> (name ident lower array nw (npins p..)*nw)*m -> <k> (ident name npins p..)*k
    file   <str>                                    -> err <reason> | ok <json>       whole file: EdifFile.elab_text
-   emitfile <nts> ts.. <prog> <file>               -> raises | unsupported | ok <rt 0..5> <ordered 0/1> <prepass f = Some f 0/1> <writable 0/1> <sexp>    whole file: EdifEmit.emit_file
+   emitfile <nts> ts.. <prog> <floats> <file>               -> raises | unsupported | ok <rt 0..5> <ordered 0/1> <prepass f = Some f 0/1> <writable 0/1> <sexp>    whole file: EdifEmit.emit_file
+            floats: <n> (lib cell inst <nprops> xprop..)*n, xprop = prop | ident (~|orig) n <neg 0/1> <digits> <exp>
             prog: ~ | <str> (~|<str>);  file: name ident <nlibs> lib.. (~ | name ident lib cell)
             lib: name ident <ncells> cell..;  cell: name ident <np> port.. <ni> inst.. <nc> cab..
             port: name ident dir width array;  inst: name ident (~ | lib cell) <nprops> prop..
@@ -197,6 +198,20 @@ let p_file l =
   let (nm, l) = one_str l in let (idt, l) = one_str l in let (libs, l) = take_list p_lib l in
   let (top, l) = opt_of p_top l in
   ({ nf_name = nm; nf_ident = idt; nf_libs = libs; nf_top = top }, l)
+let p_xprop l =
+  let (idt, l) = one_str l in
+  let (orig, l) = opt_of one_str l in
+  match l with
+  | "n" :: neg :: digits :: e :: l -> ({ xp_ident = idt; xp_orig = orig; xp_val = XNum (neg = "1", n_of_dec digits, z_of_dec e) }, l)
+  | "i" :: z :: l -> ({ xp_ident = idt; xp_orig = orig; xp_val = XV (PVInt (z_of_dec z)) }, l)
+  | "s" :: v :: l -> ({ xp_ident = idt; xp_orig = orig; xp_val = XV (PVStr (str_of_tok v)) }, l)
+  | "b" :: b :: l -> ({ xp_ident = idt; xp_orig = orig; xp_val = XV (PVBool (b = "1")) }, l)
+  | _ -> failwith "bad x property value"
+let p_floats l =
+  take_list (fun l ->
+      let (lb, l) = one_str l in let (c, l) = one_str l in let (i, l) = one_str l in
+      let (xs, l) = take_list p_xprop l in
+      ((((lb, c), i), xs), l)) l
 let p_prog l = opt_of (fun l -> let (p, l) = one_str l in let (v, l) = opt_of one_str l in ((p, v), l)) l
 
 let handle line =
@@ -204,13 +219,14 @@ let handle line =
   | "emitfile" :: rest ->
     let (ts, rest) = take_list one_str rest in
     let (prog, rest) = p_prog rest in
+    let (fl, rest) = p_floats rest in
     let (f, _) = p_file rest in
-    (match emit_file ts prog f with
+    (match emit_file ts prog fl f with
      | EmRaises -> "raises"
      | EmUnsupported -> "unsupported"
      | EmOk d ->
        let fix = (match prepass f with Some g -> file_eqb g f | None -> false) in
-       "ok " ^ dec_small (rt_status ts prog f) ^ " " ^ jbool (ordered f) ^ " " ^ jbool fix ^ " " ^ jbool (writable f && params_w ts prog) ^ " " ^ show_sexp d)
+       "ok " ^ dec_small (rt_status ts prog fl f) ^ " " ^ jbool (ordered f) ^ " " ^ jbool fix ^ " " ^ jbool (writable f && params_w ts prog && fl = []) ^ " " ^ show_sexp d)
   | "prepass" :: rest ->
     let (f, _) = p_file rest in
     (match prepass f with None -> "none" | Some g -> "ok " ^ jfile g)
